@@ -99,7 +99,19 @@ UnivWeight(t) == LET RECURSIVE W(_, _)
                  IN W(1, 1)
 UnivHeaps == {H1(t, UnivBuilds[1 + (UnivWeight(t) % Len(UnivBuilds))], "univ") :
                 t \in Sample(UnivTables, UnivCfg.k, UnivCfg.salt)}
-MCHeaps == IF IOEnv.GEN_HEAPS = "univ" THEN UnivHeaps ELSE HeapSets[IOEnv.GEN_HEAPS]
+\* pairs for merge: EVERY pair of 2 x 2 matrices over the value alphabet, the second on IDs that overlap the
+\* first partially (o2,o3 x s2,s3), both with and without metadata by content
+UnivPairHeaps ==
+  LET mats == [1..2 -> [1..2 -> 0..(UnivCfg.vals - 1)]]
+      md(ids, v) == MdRows([k \in 1..Len(ids) |-> <<S1("k1", v)>>])
+      A(mm) == Mk(<<"o1", "o2">>, <<"s1", "s2">>, mm, IF mm[1][1] = 0 THEN NoMd ELSE md(<<"o1", "o2">>, "x"), NoMd, "OTU table")
+      B(mm) == Mk(<<"o2", "o3">>, <<"s2", "s3">>, mm, IF mm[2][2] = 0 THEN NoMd ELSE md(<<"o2", "o3">>, "y"),
+                  IF mm[1][2] = 0 THEN NoMd ELSE md(<<"s2", "s3">>, "p"), "")
+      pairs == {<<A(x), B(y)>> : x \in mats, y \in mats}
+  IN {H2b(pr[1], pr[2], UnivBuilds[1 + (UnivWeight(pr[1]) % Len(UnivBuilds))],
+          UnivBuilds[1 + (UnivWeight(pr[2]) % Len(UnivBuilds))], "univpair") : pr \in Sample(pairs, UnivCfg.k, UnivCfg.salt)}
+MCHeaps == IF IOEnv.GEN_HEAPS = "univ" THEN UnivHeaps
+           ELSE IF IOEnv.GEN_HEAPS = "univpair" THEN UnivPairHeaps ELSE HeapSets[IOEnv.GEN_HEAPS]
 
 PhaseSpec == JsonDeserialize(IOEnv.GEN_PHASES)
 MCPhases == [i \in 1..Len(PhaseSpec) |->
